@@ -85,7 +85,10 @@ IsFirstPosition(t) == CASE t.k = "this" -> TRUE
                         [] OTHER -> (\E i \in 1..Len(t.ch) : t.ch[i].k = "this") \/ IsFirstPosition(t.ch[1])
 PrinterAccepts(t) == CountThis(t) = 0 \/ (CountThis(t) = 1 /\ IsFirstPosition(t))
 
-Src(module, file, lead, on) == IF (module = "" /\ file = "") \/ ~on THEN "" ELSE " #" \o lead \o " module: " \o module \o ", file: " \o file
+\* module and file names are printed inside a one-line comment: line breaks in them are replaced by a blank (D21)
+RECURSIVE OneLine(_)
+OneLine(x) == IF x = "" THEN "" ELSE (IF SubSeq(x, 1, 1) \in {"\n", "\r"} THEN " " ELSE SubSeq(x, 1, 1)) \o OneLine(SubSeq(x, 2, Len(x)))
+Src(module, file, lead, on) == IF (module = "" /\ file = "") \/ ~on THEN "" ELSE " #" \o lead \o " module: " \o OneLine(module) \o ", file: " \o OneLine(file)
 Relation(r, on) == "    define " \o r.name \o ": " \o Top(r.rw, r.restr) \o Src(r.module, r.file, " extended by:", on)
 TypeStr(t, modular, on) ==
   LET rels == IF modular THEN SortBy(t.rels, "module") ELSE SortBy(t.rels, "name") IN
